@@ -33,7 +33,8 @@ ASSUMPTIONS = [
     "canonical state = configuration + harness bookkeeping + wire bytes + the channel's buffering/flow-control "
     "attributes (read defensively, used only to merge states, never for the verdict)",
 ]
-MIN = {"quick": {"states": 85000, "transitions": 120000, "nontrivial": 78000, "outcomes": 5}}
+MIN = {"quick": {"states": 85000, "transitions": 120000, "nontrivial": 78000, "outcomes": 5},
+       "thorough": {"states": 370000, "transitions": 540000, "nontrivial": 350000, "outcomes": 5}}
 
 KINDS = {
     # kind -> (method, request bytes for path /i, expected body)
